@@ -22,6 +22,14 @@ pub fn case(args: &Args, rng: &mut Rng, out: &mut Streams, dist: &mut Dist, scra
     extra.push("--commit-interval".into());
     extra.push((1 + rng.below(6)).to_string());
   }
+  // one case in three lets the mock node report its real header count (mockcore says 0 by default,
+  // which makes every height look close to the tip): the `blocks - height <= interval * max + 1`
+  // half of `is_savepoint_required` then decides too, and the model gets the same number
+  let real_headers = rng.chance(1, 3);
+  mockcore::verif::report_headers(real_headers);
+  if real_headers {
+    dist.hit("reorg_case_real_headers");
+  }
   let node = Node::new(chain, scratch);
   let ix = env::open(&node, scratch, flags, &extra, false);
   let mut g0 = chaingen::Gen::new(rng.fork(), node.core.state().network);
@@ -119,7 +127,7 @@ pub fn case(args: &Args, rng: &mut Rng, out: &mut Streams, dist: &mut Dist, scra
       };
       let join = |v: &Vec<String>| if v.is_empty() { "-".to_string() } else { v.join(",") };
       out.emit(
-        &format!("proto.update 0 40 {}", join(&node_ids)),
+        &format!("proto.update {} 40 {}", if real_headers { node.height() as u64 } else { 0 }, join(&node_ids)),
         &format!("{o} chain={} lastsp={lastsp} ev={}", join(&chain_ids), join(&evs)),
       );
     }
@@ -173,5 +181,82 @@ pub fn case(args: &Args, rng: &mut Rng, out: &mut Streams, dist: &mut Dist, scra
         return;
       }
     }
+  }
+}
+
+/// C14, last clause, at the one place where the index holds NO savepoint: an index that stopped
+/// (height limit, shutdown) while it was still far behind the node's tip has not taken any savepoint
+/// yet (`is_savepoint_required` is false until `blocks - height <= interval * max + 1`).  If the node
+/// then reorganises a few blocks below that index tip, `update` finds a reorg of recoverable depth
+/// and has nothing to roll back to: the property demands "reported as unrecoverable and flagged",
+/// and that no block of the abandoned branch is kept silently.
+pub fn no_savepoint_scenario(rng: &mut Rng, out: &mut Streams, dist: &mut Dist, scratch: &Path) {
+  // mockcore reports `headers: 0` by default, which makes every height look close to the tip
+  mockcore::verif::report_headers(true);
+  no_savepoint_scenario_inner(rng, out, dist, scratch);
+  mockcore::verif::report_headers(false);
+}
+
+fn no_savepoint_scenario_inner(rng: &mut Rng, out: &mut Streams, dist: &mut Dist, scratch: &Path) {
+  let node = Node::new("regtest", scratch);
+  let mut g = chaingen::Gen::new(rng.fork(), node.core.state().network);
+  g.absorb(&node.block_at(0), 0);
+  g.max_txs = 2;
+  let mut gens = vec![g.clone()];
+  for _ in 0..40 {
+    let b = g.block(&node, dist);
+    node.push_block(b);
+    gens.push(g.clone());
+  }
+  let limit = 9u32;
+  let sp = vec!["--savepoint-interval".to_string(), "10".to_string(), "--max-savepoints".to_string(), "2".to_string()];
+  let mut limited = sp.clone();
+  limited.extend(["--height-limit".to_string(), limit.to_string()]);
+  let ix = env::open(&node, scratch, Flags::all(), &limited, false);
+  let first = env::update(&ix, Duration::from_secs(60));
+  let rows = ix.index.verif_dump().unwrap();
+  let indexed = rows.iter().filter(|r| r.starts_with("header ")).count();
+  // the node replaces everything from height `limit - 3` on (3 blocks below the index tip)
+  let keep = (limit - 3) as usize;
+  node.pop_blocks(41 - keep);
+  gens.truncate(keep);
+  let mut g = gens.last().unwrap().clone();
+  g.rng = rng.fork();
+  for _ in 0..45 {
+    let b = g.block(&node, dist);
+    node.push_block(b);
+  }
+  let ix = env::reopen(&node, ix, Flags::all(), &sp);
+  let outcome = env::update(&ix, Duration::from_secs(60));
+  let desc = format!(
+    "scenario=no-savepoint first={} indexed={indexed} limit={limit} fork={keep} tip={}",
+    match &first {
+      UpdateOutcome::Ok => "ok".to_string(),
+      UpdateOutcome::Err(e) => format!("err:{}", e.replace(' ', "_")),
+      UpdateOutcome::Panic(p) => format!("panic:{}", p.replace(' ', "_")),
+      UpdateOutcome::Hang => "hang".to_string(),
+    },
+    node.height()
+  );
+  dist.hit("no_savepoint_scenario");
+  match outcome {
+    UpdateOutcome::Ok => {
+      // acceptable only if the index now equals a from-scratch index of the new chain
+      let fresh = env::open(&node, scratch, Flags::all(), &[], false);
+      let ok = crate::must_update(&fresh).is_ok();
+      let a = content_of(&fresh);
+      let b = content_of(&ix);
+      out.emit(
+        &format!("store.oracle.same {} {} {desc} class={} diff={}", digest(&a), digest(&b), if ok && a == b { "ok" } else { "stale-content" }, first_diff(&a, &b)),
+        "true",
+      );
+    }
+    UpdateOutcome::Err(e) if e.contains("unrecoverable reorg") => {
+      let flagged = ix.index.verif_dump().unwrap().iter().any(|r| r == "flag unrecoverably_reorged true");
+      out.emit(&format!("store.oracle.true {} {desc} class=unrecoverable flagged={flagged}", flagged as u8), "true");
+    }
+    UpdateOutcome::Err(e) => out.emit(&format!("store.oracle.true 0 {desc} class=error:{}", e.replace(' ', "_")), "true"),
+    UpdateOutcome::Panic(p) => out.emit(&format!("store.oracle.true 0 {desc} class=panic:{}", p.replace(' ', "_")), "true"),
+    UpdateOutcome::Hang => out.emit(&format!("store.oracle.true 0 {desc} class=hang"), "true"),
   }
 }
